@@ -662,6 +662,9 @@ package bigbuff
 //@   props C01 C02 C05 C12
 //@   action mutex
 //@   at-call (producer).getAsync#0 args : arg2 == c && arg3 == c.offset && heldW(c.mutex) && len(arg4) == 1 && arg4[0] == c.ctx
+//@   # the wait is bounded by a child of the caller's context (Background only when the caller passed nil), which was live when checked
+//@   at-call context.WithCancel#0 callerctx : arg0 != nil && (ctx != nil ==> arg0 == ctx)
+//@   at-call (producer).getAsync#0 child : arg1 == ilast("context.WithCancel", 0)
 //@   at-call recv#0 lender : heldW(c.mutex)
 //@   # message invariant of the reply channel, established at the only send site ((*Buffer).getAsync$1/at-call@send#0:msg)
 //@   after-call recv#0 assume msg : ret0.Error == nil ==> has(buf(c).consumers, c) && ret0.Value == log(buf(c), buf(c).consumers[c] + c.offset)
@@ -920,7 +923,10 @@ package bigbuff
 //@   # itself if subscribing panics
 //@   at-call (*Notifier).SubscribeContext#0 forward : arg1 != nil && arg1 == now(ctx) && arg2 == key && arg3 == target
 //@   ensures subscribed : icalls("(*Notifier).SubscribeContext") == 1 && spawned("(*Notifier).SubscribeCancel$2") == 1 && ret != nil
-//@   ensures-panic released : spawned("(*Notifier).SubscribeCancel$2") == 0
+//@   # on success the child context is left live and its cancel function is what the caller gets; on a panic it is cancelled
+//@   ensures live : calls(now(cancel)) == 0 && ret == now(cancel) && icalls("context.WithCancel") == 1 && ret == ilast("context.WithCancel", 1)
+//@   at-call context.WithCancel#0 parent : arg0 != nil && (old(ctx) != nil ==> arg0 == old(ctx))
+//@   ensures-panic released : spawned("(*Notifier).SubscribeCancel$2") == 0 && calls(now(cancel)) == 1
 
 //@ func (*Notifier).SubscribeCancel$2
 //@   props C15 C12
@@ -1051,6 +1057,8 @@ package bigbuff
 //@   ensures invoked : icalls("(Callable).Call") == 1 ==> ret == ilast("(Callable).Call", 0)
 //@   ensures skipped : icalls("(Callable).Call") == 0 ==> ret != nil
 //@   ensures once : icalls("(Callable).Call") <= 1
+//@   ensures notfunc : rt_kind(ilast("(Callable).Type", 0)) != 19 ==> ret != nil && icalls("(Callable).Call") == 0
+//@   ensures plain : len(options) == 0 && rt_kind(ilast("(Callable).Type", 0)) == 19 ==> icalls("(Callable).Call") == 1
 
 //@ func (Callable).Type
 //@   ensures valid : ret0 != nil
@@ -1124,8 +1132,22 @@ package bigbuff
 //@   at-call builtin.append#3 eligible : keySubscriber.ctx == nil || lasterr(keySubscriber.ctx) == nil
 //@   at-call builtin.append#3 accepts : rv_valid(arg1[0].Chan) || true
 //@   at-call reflect.Select#0 readlocked : heldR(n.mutex)
-//@   loop 0 invariant build : len(exitCases) <= 1 && len(failureRefs) == len(failureCases) && all(j, 0, len(failureRefs), 0 <= failureRefs[j] && failureRefs[j] < len(successCases)) && all(j, 0, len(failureRefs), all(k, j + 1, len(failureRefs), failureRefs[j] < failureRefs[k])) && heldR(n.mutex)
-//@   loop 1 invariant main : len(exitCases) <= 1 && len(failureRefs) == len(failureCases) && all(j, 0, len(failureRefs), 0 <= failureRefs[j] && failureRefs[j] < len(successCases)) && all(j, 0, len(failureRefs), all(k, j + 1, len(failureRefs), failureRefs[j] < failureRefs[k])) && heldR(n.mutex)
+//@   # a cancelled publisher context publishes nothing; with subscribers present the whole registry of the key is walked
+//@   ensures precancelled : ctx != nil && old(cancelled(ctx)) ==> icalls("reflect.Select") == 0
+//@   ensures walked : len(keySubscribers) != 0 ==> mapiter0 == len(keySubscribers)
+//@   # the publisher's context (and only it) is the exit case; every Select retires exactly the chosen success case
+//@   at-call reflect.Select#0 interruptible : len(exitCases) == ite(ctx != nil, 1, 0) && len(arg0) == len(exitCases) + len(failureCases) + len(successCases)
+//@   at-call builtin.append#0 exitcase : ctx != nil
+//@   at-call builtin.copy#0 retire : 0 <= successIndex && successIndex < len(successCases) && len(arg0) == len(successCases) - successIndex && len(arg1) == len(successCases) - successIndex - 1
+//@   at-call builtin.copy#1 retirefail : 0 <= failureIndex && failureIndex < len(failureCases) && len(arg0) == len(failureCases) - failureIndex && len(arg1) == len(failureCases) - failureIndex - 1
+//@   at-call builtin.copy#2 retireref : len(arg0) == len(failureRefs) - failureIndex && len(arg1) == len(failureRefs) - failureIndex - 1
+//@   loop 0 invariant walking : 0 <= mapiter0 && mapiter0 <= len(keySubscribers)
+//@   loop 0 invariant build : len(exitCases) == ite(ctx != nil, 1, 0) && len(failureRefs) == len(failureCases) && all(j, 0, len(failureRefs), 0 <= failureRefs[j] && failureRefs[j] < len(successCases)) && all(j, 0, len(failureRefs), all(k, j + 1, len(failureRefs), failureRefs[j] < failureRefs[k])) && heldR(n.mutex)
+//@   loop 1 invariant walked : mapiter0 == len(keySubscribers)
+//@   loop 2 invariant walked : mapiter0 == len(keySubscribers)
+//@   loop 3 invariant walked : mapiter0 == len(keySubscribers)
+//@   loop 1 invariant progress : len(successCases) + icalls("reflect.Select") == len(atentry(1, successCases))
+//@   loop 1 invariant main : len(exitCases) == ite(ctx != nil, 1, 0) && len(failureRefs) == len(failureCases) && all(j, 0, len(failureRefs), 0 <= failureRefs[j] && failureRefs[j] < len(successCases)) && all(j, 0, len(failureRefs), all(k, j + 1, len(failureRefs), failureRefs[j] < failureRefs[k])) && heldR(n.mutex)
 //@   loop 2 invariant search : failureIndex == -1 && 0 <= successIndex && successIndex < len(successCases) && all(j, 0, rangeindex + 1, failureRefs[j] != successIndex)
 //@   loop 3 invariant shape : all(j, 0, len(failureRefs), 0 <= failureRefs[j] && failureRefs[j] < len(successCases)) && all(j, 0, len(failureRefs), all(k, j + 1, len(failureRefs), failureRefs[j] <= failureRefs[k]))
 //@   loop 3 invariant rebase : -1 <= i__0 && i__0 < len(failureRefs) && len(failureRefs) == len(atentry(3, failureRefs)) && all(j, i__0 + 1, len(failureRefs), atentry(3, failureRefs)[j] > successIndex && failureRefs[j] == atentry(3, failureRefs)[j] - 1) && all(j, 0, i__0 + 1, failureRefs[j] == atentry(3, failureRefs)[j])
@@ -1134,6 +1156,9 @@ package bigbuff
 //@   guard mutex : subscribers
 //@   guardmap mutex : subscribers
 //@   inv mutex targets : forall(k, any, forall(p, int, has(n.subscribers, k) && has(n.subscribers[k], p) ==> rv_valid(n.subscribers[k][p].target) && rt_kind(rv_type(n.subscribers[k][p].target)) == 18))
+//@   # every key has its own inner map
+//@   inv mutex distinct : forall(k, any, forall(k2, any, has(n.subscribers, k) && has(n.subscribers, k2) && k != k2 ==> n.subscribers[k] != n.subscribers[k2]))
+//@   inv mutex inner : forall(k, any, has(n.subscribers, k) ==> n.subscribers[k] != nil)
 
 //@ func (*Notifier).SubscribeContext
 //@   maypanic
@@ -1150,6 +1175,8 @@ package bigbuff
 //@   props C15
 //@   action mutex
 //@   ensures removed : !(has(n.subscribers, key) && has(n.subscribers[key], rv_pointer(rv_of(target))))
+//@   # every other subscription (other key, or other target under the same key) is still there, unchanged
+//@   ensures others : forall(k, any, forall(p, int, old(has(n.subscribers, k)) && old(has(n.subscribers[k], p)) && !(k == key && p == rv_pointer(rv_of(target))) ==> has(n.subscribers, k) && has(n.subscribers[k], p) && n.subscribers[k][p].ctx == old(n.subscribers[k][p].ctx) && n.subscribers[k][p].target == old(n.subscribers[k][p].target)))
 //@   ensures existed : old(has(n.subscribers, key)) && old(has(n.subscribers[key], rv_pointer(rv_of(target))))
 //@   ensures-panic outer_unchanged : n.subscribers == old(n.subscribers) && forall(k, any, has(n.subscribers, k) == old(has(n.subscribers, k)) && n.subscribers[k] == old(n.subscribers[k]))
 //@   ensures-panic inner_unchanged : forall(k, any, forall(p, int, has(n.subscribers[k], p) == old(has(n.subscribers[k], p))))
